@@ -24,6 +24,16 @@ BuildDevs(e) ==
           IfDev(e.clean_g.exists /\ e.grammar_out.digest = e.clean_g.digest, "C18", "generated parser # clean build", <<e.grammar_out, e.clean_g>>)
           \cup (IF e.which = "both" THEN IfDev(e.clean_l.exists /\ e.lexer_out.digest = e.clean_l.digest, "C18", "generated lexer # clean build", <<e.lexer_out, e.clean_l>>) ELSE {})
         ELSE {})
+  \* the same observation as C13 / C14 / C15 see it: the module a successful build leaves in place is
+  \* THE module of these sources and settings - the one a build into an empty directory generates,
+  \* whose behaviour (C13), embedded tables (C14) and bytes (C15) those properties are about - and
+  \* not a function of what an earlier build left behind
+  \cup (IF e.ok /\ last'.ok /\ Prop \in {"C13", "C14", "C15"} THEN
+          IfDev(e.clean_g.exists /\ e.grammar_out.digest = e.clean_g.digest, Prop,
+                "same sources and settings, but the module left in place is not the one a build into an empty directory generates (it depends on an earlier build)", <<e.grammar_out, e.clean_g>>)
+          \cup (IF e.which = "both" THEN IfDev(e.clean_l.exists /\ e.lexer_out.digest = e.clean_l.digest, Prop,
+                "same sources and settings, but the lexer module left in place is not the one a build into an empty directory generates", <<e.lexer_out, e.clean_l>>) ELSE {})
+        ELSE {})
   \* the %expect rule (C03): with error_on_conflicts the build fails iff the counts differ
   \cup (IF "sr" \in DOMAIN e /\ GI[gv].valid /\ ~(opts["wae"] /\ GI[gv].warn) /\ e.which = "parser" /\ (last'.regenerated \/ ~last'.ok)
         THEN IfDev(e.ok = (~opts["eoc"] \/ ExpectOK([sr |-> e.sr, rr |-> e.rr, expect |-> e.expect, expectrr |-> e.expectrr])),
